@@ -134,8 +134,12 @@ def run(run):
                 continue
             nonvanishing(run, f"{tag}/{name}/depends-on-randomness/{best[1]}", ctx, best[2])
         run.extra["outputs_checked"] = run.extra.get("outputs_checked", 0) + len(comm) + 8
+        zero_blinder_paths(run, kind, sb, ctx, nodes, comm, ev, tag)
         if o.get("verified") != "Ok(())":
             run.notes.append(f"{tag}: real verifier on the symbolic proof: {o.get('verified')}")
+    large_domain_dependencies(run)
+    run.bounds.append("one circuit with 2104 constraints (domain 4096): blinder-dependency sets of every proof "
+                      "element (structural, not a solver verdict)")
     run.bounds.append(f"circuits {kinds} (tiny concrete circuits, concrete witness), one scripted challenge "
                       "assignment per seed; ALL values of the 14 blinders and of the SRS secret/bases")
     run.assumptions.append("structural coefficient extraction with respect to one variable (a syntactic ring "
@@ -143,6 +147,104 @@ def run(run):
                            "on every run")
     run.outside.append("all circuits / all witnesses / all challenge values; statistical independence of the masks "
                        "is the standard argument (uniform blinders, fixed non-zero mask polynomials)")
+
+
+def two_run_replay(run, kind, draw, v1, v2, fields):
+    """Replay on concrete values (real prover code, dependency copy in concrete mode, scripted
+    oracle): two proving runs whose RNG streams differ ONLY in draw `draw` (values v1, v2) must
+    differ in `fields`; reproduced iff they do not."""
+    def rp(_model):
+        from checks.verifier_common import scripted_at
+        import random
+        rnd = random.Random(run.seed + 99)
+        base = {f"blind{i}": "%064x" % rnd.randrange(2, R) for i in range(14)}
+        base.update({f"srs{i}": "%064x" % rnd.randrange(2, R) for i in range(3)})
+        outs = []
+        for v in (v1, v2):
+            env = dict(base)
+            env[f"blind{draw}"] = "%064x" % v
+            o = scripted_at(["prove", str(kind)], env, run.seed)["outputs"]
+            outs.append(o)
+        same = [f for f in fields if outs[0].get("comms", {}).get(f) == outs[1].get("comms", {}).get(f)]
+        return len(same) == len(fields) and len(fields) > 0, {"draw": draw, "values": [hex(v1), hex(v2)],
+                                                               "fields_identical": same, "kind": kind}
+    return rp
+
+
+def large_domain_dependencies(run):
+    """Domain of 4096 points (the size from which FFTs and wire blinding take their parallel paths):
+    the real prover runs with all 14 blinders symbolic; reported per proof element: the set of
+    blinders it depends on (structural reachability in the term arena; the 9M-node term graph is
+    not handed to the solver)."""
+    sb = fw.run_driver(fw.SYM_BIN, ["prove", "3"], run.seed, extra_env={"VERIF_DEPS_ONLY": "1", "RAYON_NUM_THREADS": "4"})
+    o = sb["outputs"]
+    tag = "circuit3-domain4096"
+    if "error" in o or "deps" not in o:
+        run.violations.append((f"{tag}/prover", _w(run, tag, f"prover: {o.get('error')}")))
+        return
+    want = {"a_comm": {0, 1}, "b_comm": {2, 3}, "c_comm": {4, 5}, "d_comm": {6, 7}, "z_comm": {8, 9, 10}}
+    for name, exp in want.items():
+        got = {int(v[5:]) for v in o["deps"][name]}
+        if got != exp:
+            missing = sorted(exp - got)
+            f = _w(run, f"{tag}/{name}", f"{name} depends on blinders {sorted(got)}, prescribed {sorted(exp)}")
+            rp = two_run_replay(run, 3, missing[0] if missing else sorted(got)[0], 3, 5, [name])
+            ok, det = (rp({}) if missing else (True, {}))
+            if ok:
+                run.violations.append((f"{tag}/{name}/blinders", f))
+            else:
+                run.inconclusive.append(f"{tag}/{name}: dependency set {sorted(got)} but the two-run replay did not reproduce")
+    for k_, name in ((11, "t_low"), (12, "t_mid"), (13, "t_high")):
+        got = {int(v[5:]) for v in o["deps"][name]}
+        if k_ not in got:
+            run.violations.append((f"{tag}/{name}/blinders", _w(run, f"{tag}/{name}", f"{name} does not depend on draw {k_}")))
+    for name in ("a_eval", "b_eval", "c_eval", "d_eval", "z_eval"):
+        if not o["deps"][name]:
+            run.violations.append((f"{tag}/{name}/unmasked", _w(run, f"{tag}/{name}", f"{name} depends on no blinder")))
+    run.extra["large_domain_nodes"] = o.get("nodes_in_arena")
+    run.extra["large_domain_constraints"] = o.get("n")
+
+
+def zero_blinder_paths(run, kind, sb, ctx, nodes, comm, ev, tag):
+    """The mask must be a function of the draw without case distinction: for each of the 14 draws,
+    the prover is re-run with that draw equal to the concrete scalar zero (all other draws symbolic);
+    every commitment must equal the generic commitment with that blinder set to zero (Type I)."""
+    targets = [(k, f"blind{k}", 0) for k in range(14)]
+    run.extra[f"{tag}/zero-draw-runs"] = len(targets)
+    for idx, bname, cval in targets:
+        sb2 = fw.run_driver(fw.SYM_BIN, ["prove", str(kind)], run.seed, extra_env={"VERIF_ZERO_BLINDERS": str(idx)})
+        o2 = sb2["outputs"]
+        t2 = f"{tag}/path-{bname}=={cval}"
+        if "error" in o2:
+            run.violations.append((t2, _w(run, tag, f"{bname} == {cval}: prover returned {o2['error']}")))
+            continue
+        ctx2 = smt.Ctx()
+        n2 = ctx2.from_nodes(sb2["nodes"])
+        # the generic outputs, re-created in the second context, with the blinder substituted
+        def port(e):
+            memo = {}
+            for x_ in smt.topo([e]):
+                if x_.op == "v":
+                    memo[x_.id] = ctx2.const(cval) if x_.args[0] == bname else ctx2.var(x_.args[0])
+                elif x_.op == "c":
+                    memo[x_.id] = ctx2.const(x_.args[0])
+                else:
+                    memo[x_.id] = ctx2.mk(x_.op, tuple(memo[a_.id] for a_ in x_.args))
+            return memo[e.id]
+        own = {0: "a_comm", 1: "a_comm", 2: "b_comm", 3: "b_comm", 4: "c_comm", 5: "c_comm", 6: "d_comm",
+               7: "d_comm", 8: "z_comm", 9: "z_comm", 10: "z_comm"}
+        names_ = [own[idx]] if idx in own else ["t_low", "t_mid", "t_high", "t_fourth"]
+        import sweep
+        for name in names_:
+            root = comm[name]
+            got = n2[o2["comms"][name]]
+            if idx in own:
+                ob = run.identity(f"{t2}/{name}", got, port(root),
+                                  replay=two_run_replay(run, kind, idx, 0, 1, [name]))
+            else:
+                sw = sweep.Sweeper(run, ctx2, "sweep", seed=run.seed)
+                sw.prove(f"{t2}/{name}", got, port(root),
+                         replay=two_run_replay(run, kind, idx, 0, 1, ["t_low", "t_mid", "t_high", "t_fourth"]))
 
 
 def _validate_split(run, ctx, root, parts, bname):
